@@ -30,7 +30,7 @@ def w2r(item):
     return item
 
 
-def same_layout(w, r):
+def same_layout(w, r, eng=None, ws=None):
     if len(w) != len(r):
         return False
     for a_, b_ in zip(w, r):
@@ -40,6 +40,11 @@ def same_layout(w, r):
         elif a_[0] in ("enum", "const"):
             if not (b_[0] in ("read", "int") and b_[1] == a_[1]):
                 return False
+            if a_[0] == "const" and b_[0] == "int" and eng is not None and len(b_) > 2 and isinstance(b_[2], str):
+                # the decoder keeps these octets as the raw field b_[2]; a constant written in their place round-trips
+                # only on encoder paths where that field is pinned to the constant
+                if not eng.ent(ws, c_eq(Lin.sym("self.*." + b_[2]), Lin.const(a_[2]))):
+                    return False
         elif tuple(a_) != tuple(b_):
             return False
     return True
@@ -121,7 +126,7 @@ def run_config(chk, config):
                                   {"rule": "no length-class rejection of encoder output", "encoder_layout": wc, "decoder_path": rs.notes()[-6:]})
                     continue
                 n_ok += 1
-                chk.oblig(same_layout(wc, rc), "layout | %s | %s" % (vname, layout_name(wc)),
+                chk.oblig(same_layout(wc, rc, engw, ws), "layout | %s | %s" % (vname, layout_name(wc)),
                           "%s: encoder emits %s but the decoder reads that size as %s" % (vname, wc, rc),
                           {"rule": "same fields, widths and order on both sides; reserved octets skipped", "encoder_layout": wc, "decoder_layout": rc,
                            "decoder_path": rs.notes()[-6:]},
@@ -138,13 +143,13 @@ def run_config(chk, config):
             return
         for b in res["back"]:
             evs = b.events()
-            reads = [e for e in evs if e[0] == "read"]
+            reads = [e for e in evs[H.ntrace:] if e[0] == "read" and e[1] == "reader.*"]
             pushes = [e for e in evs if e[0] == "push"]
-            if len(reads) < 4 or not pushes:
+            hview = AvpHeaderView(eng, b, reads)
+            if not hview.ok or not pushes:
                 continue
             vi, p = result_parts(pushes[-1][2])
-            o1n = next(iter(reads[0][3].lin.t))
-            if b.bitfacts.get((o1n, 1)) is True and eng.ent(b, c_eq(reads[2][3].lin, Lin.const(0))):
+            if hview.bit(b, 1) is True and eng.ent(b, c_eq(hview.vendor, Lin.const(0))):
                 hid["hbit"] = hid.get("hbit", 0) + 1
                 if not (vi == 0 and tables.variant_name(eng, p) == "Hidden"):
                     hid["bad"].append("an AVP with the H bit (vendor id 0) is not decoded to Ok(Hidden): %s" % (tables.variant_name(eng, p),))
@@ -153,11 +158,9 @@ def run_config(chk, config):
                 hv = p.variants[p.vidx.c][0]
                 lv = dict(layout.leaves(eng, b, hv))
                 at_, val = lv.get(".attribute_type"), lv.get(".value")
-                o1 = reads[0][3]
-                q, r = eng.divmod_const(b, o1.lin, 64)
-                want_len = q.scale(256) + reads[1][3].lin - 6
-                ok = isinstance(at_, VInt) and at_.lin == reads[3][3].lin and isinstance(val, VVec) and eng.ent(b, c_eq(val.len, want_len)) \
-                    and b.bitfacts.get((next(iter(o1.lin.t)), 1)) is True
+                want_len = hview.total - 6
+                ok = isinstance(at_, VInt) and eng.ent(b, c_eq(at_.lin, hview.attr)) and isinstance(val, VVec) and eng.ent(b, c_eq(val.len, want_len)) \
+                    and hview.bit(b, 1) is True
                 if not ok:
                     hid["bad"].append(b.notes()[-4:])
     eng.hooks["loop"] = on_loop
@@ -168,6 +171,7 @@ def run_config(chk, config):
               {"obligation": "H bit => Hidden{attribute_type: wire type, value: the length-6 payload octets}", "paths": hid["n"]})
     # ---- 5. control header and AVP order (the decoded list must be the encoded list: encoder walks self.avps forward)
     order_clause(chk, fx, a, config)
+    encodable_clause(chk, fx, a, config)
     engw, wpaths = writer_paths(chk, fx, a, "Control")
     engr, rrets = reader_paths(chk, fx, a)
     worder = None
@@ -187,6 +191,41 @@ def run_config(chk, config):
               "control-header | order", "control header field order differs: encoder %s, decoder %s" % (worder, rorder),
               {"encoder": worder, "decoder": rorder},
               {"obligation": "control header: same field at each position on both sides", "encoder": worder, "decoder": rorder})
+
+
+def encodable_clause(chk, fx, a, config):
+    """the encoder refuses nothing inside the encodable domain: every reachable refusal (panic) of AVP::write happens
+    with more than 1023 octets emitted for that AVP, every refusal of ControlMessage::write (outside the AVPs) with
+    more than 65535 octets emitted for the message"""
+    import json
+    import os
+    from framework import VERIF
+    hs = json.load(open(os.path.join(VERIF, "spec", "headers.json")))
+    W0 = Lin.sym("W(writer.*)")
+    for fn, limit, what in ((a.avp_write, hs["avp_header"]["max_length"], "AVP::write"),
+                            (a.msg_write, 65535, "ControlMessage::write")):      # entered through Message::write: the version is the crate's constant
+        eng = new_engine(chk, fx)
+        bad = []
+        seen = {"n": 0}
+
+        def sink(frame, st, bb, msg, limit=limit, what=what, eng=eng):
+            if eng.mute:
+                return
+            if what == "ControlMessage::write" and ("AVP::write" in frame.ctxname or "DataMessage" in frame.ctxname):
+                return                                  # an AVP's own refusal is judged on AVP::write; data messages are C04
+            seen["n"] += 1
+            wr = st.cells.get(("obj", "writer"))
+            W = getattr(wr, "W", None)
+            if W is None or not eng.ent(st, c_le(Lin.const(limit + 1), W - W0)):
+                bad.append("%s can refuse (%s) with %s octets emitted, not proven more than %d: %s" % (
+                    what, msg or "panic", "an unknown number of" if W is None else repr(W - W0), limit, frame.ctxname.split(" > ")[-1]))
+        eng.hooks["panic_sink"] = sink
+        eng.analyse(fn["key"], name="%s(encodable)[%s]" % (what, config))
+        record_engine(chk, eng, "%s [%s]: %d refusal site(s) examined" % (what, config, seen["n"]))
+        chk.oblig(not bad and seen["n"] >= 1, "encodable | %s" % what,
+                  "%s" % (sorted(set(bad))[:2] or "no refusal path found (the size limit is not enforced)"),
+                  {"rule": "a refusal implies the size limit is exceeded", "limit": limit, "problems": sorted(set(bad))},
+                  {"obligation": "%s refuses only above %d octets" % (what, limit), "refusal_sites": seen["n"]})
 
 
 def order_clause(chk, fx, a, config):
